@@ -289,6 +289,9 @@ Definition bus_ok (p : phy_st) (pc : N) (c : busc) : bool :=
   | PIdle =>
       (* a transmit command, once on the bus, is still there when the PHY acknowledges it *)
       implb (negb (b_dir c) && b_nxt c && (pc =? 1)) (is_txcmd (b_do c)) &&
+      (* the acknowledgement belongs to this transmit command: it was already on the bus in the previous cycle
+         (not a register-write command that the transmitter has just overdriven) *)
+      implb (negb (b_dir c) && b_nxt c && is_txcmd (b_do c)) (pc =? 1) &&
       (* every transmit command the PHY takes is the translation of a pending UTMI transmission *)
       implb (negb (b_dir c) && b_nxt c && is_txcmd (b_do c))
             (b_txv c && if b_nostuff c then (b_do c =? TXCMD) && negb (b_rdy c)
